@@ -426,6 +426,11 @@ async fn answer_to(pc: &PeerConnection, text: &str, rts: &mut Vec<Value>, what: 
     }
 }
 
+/// SDP texts are only written on request (VERIF_KEEP_SDP=1): they are 90% of the output volume.
+fn keep_sdp() -> bool {
+    std::env::var("VERIF_KEEP_SDP").is_ok_and(|v| v == "1")
+}
+
 async fn run_one(i: usize, rec: Value) -> Value {
     let cfg = &rec["cfg"];
     let mode = cfg["mode"].as_str().unwrap();
@@ -465,13 +470,26 @@ async fn run_one(i: usize, rec: Value) -> Value {
         Ok(a) => {
             out["accepted"] = json!(true);
             out["answer"] = abstract_desc(&a);
-            out["answer_sdp"] = json!(a.to_sdp_string());
+            if keep_sdp() {
+                out["answer_sdp"] = json!(a.to_sdp_string());
+            }
         }
         Err(e) => {
             out["not_accepted"] = e;
         }
     }
-    out["offer_sdp"] = json!(text);
+    if keep_sdp() {
+        out["offer_sdp"] = json!(text);
+    }
+    // descriptions the stack PRODUCES include offers: print/parse one for a share of the configurations
+    if i % 4 == 0 && cfg["pre"] != "none" {
+        let pco = make_pc(cfg);
+        let pc2 = pco.clone();
+        if let Ok(Ok(o)) = spawned(async move { pc2.create_offer().await }).await {
+            rts.push(json!({"what": "local offer (produced)", "result": roundtrip(&o)}));
+        }
+        pco.close();
+    }
     let bad: Vec<&Value> = rts.iter().filter(|r| r["result"].as_str().is_some_and(|s| s.starts_with("different"))).collect();
     out["roundtrip_ok"] = json!(bad.is_empty());
     out["roundtrip_reordered"] = json!(rts.iter().any(|r| r["result"] == "reordered"));
